@@ -485,6 +485,10 @@ class Executor:
         for cm in self.const_models:
             r = cm(self, c)
             if r is not None: return r
+        m = re.match(r'^(?:std::result::)?Result::<.*?>::(Ok|Err)\((.*)\)$', c, re.S)
+        if m: return self.mk_enum('Result', m.group(1), [Opaque('const', m.group(2))])
+        m = re.match(r'^(?:std::option::)?Option::<.*?>::None$', c, re.S)
+        if m: return self.none()
         c2 = re.sub(r'::<[^()]*?>(?=::|$)', '', c)
         parts = c2.split('::')
         if len(parts) >= 2 and parts[-2] in self.L.enums and parts[-1] in self.L.enums[parts[-2]]:
@@ -911,7 +915,7 @@ class Executor:
             if user in self.summarize:
                 return self.call_summarized(user, args)
             return self.call_fn(user, args)
-        raise Unsupported(f'unmodelled call {callee} (in {self.cur_fn[-1] if self.cur_fn else "?"})')
+        raise Unsupported(f'unmodelled call {callee} (in {" <- ".join(reversed(self.cur_fn[-3:])) if self.cur_fn else "?"})')
 
     def call_summarized(self, name, args):
         """state merging for a pure function returning bool: explore it in a nested run and return
